@@ -96,3 +96,34 @@ def register_wrappers(J):
                      statement="C11: %s refuses a missing object, a missing or an empty key without effect; otherwise it "
                                "stores through setKeyValue with the matching per-entry setter, the caller's key/value and a "
                                "private bracket-stripped copy of the section name; frame: nothing else is written." % s))
+
+
+def register_t1(J):
+    """more functions under dfcc contracts, no input bound"""
+    J.append(Job("findkey", ["C11", "C10", "C04"], "harness/findkey.c", sources=["lib/helpers.c"],
+                 stubs=["stubs/strdup_abstract.c"], contracts=["contracts/findkey.h"], enforce="find_key",
+                 replace=["strcmp"], loop_tags=["findkey"], unwind=8, tier="T1", timeout=300, mem_gb=4,
+                 expect=[r"loop_invariant_step", r"find_key\.postcondition"], model="abstract strcmp (any result)",
+                 statement="find_key, entry array of ANY length (injected loop contract: invariant, frame, decreases): the "
+                           "returned index is in range, a missing/empty key is refused, only *num is written, the loop "
+                           "terminates. First-match semantics: api.* jobs."))
+    J.append(Job("append", ["C11", "C20", "C04"], "harness/growth.c", sources=["lib/keyfile.c"], stubs=["stubs/numtext.c"],
+                 contracts=["contracts/growth.h", "stubs/asprintf_shim.h"], enforce="key_file_append",
+                 replace=["initialize", "realloc"], unwind=8, tier="T1", defines=["-DPART_APPEND=1"], timeout=300, mem_gb=4,
+                 expect=[r"key_file_append\.postcondition"], model="realloc replaced by its contract (fresh object of the requested size)",
+                 statement="C11 growth step for EVERY length/alloc_length: one more live entry, length <= alloc_length, the "
+                           "array grows by exactly one slot when it is full and that slot (and only that) is initialised."))
+    J.append(Job("grouplist", ["C11", "C04"], "harness/growth.c", sources=["lib/helpers.c"], contracts=["contracts/growth.h"],
+                 enforce="getFromGroupList", replace=["strcmp"], loop_tags=["grouplist"], unwind=8, tier="T1",
+                 defines=["-DPART_GROUPLIST=1"], timeout=300, mem_gb=4, expect=[r"loop_invariant_step"],
+                 model="abstract strcmp",
+                 statement="getFromGroupList for a section list of ANY length (injected loop contract): stays inside the "
+                           "list, writes nothing, terminates."))
+    J.append(Job("mergetop", ["C03", "C10", "C17"], "harness/mergetop.c", sources=["lib/libeconf.c"],
+                 contracts=["contracts/mergetop.h"], enforce="econf_mergeFiles",
+                 replace=["insert_nogroup", "merge_existing_groups", "add_new_groups"], unwind=9, tier="T1", timeout=300,
+                 mem_gb=4, expect=[r"econf_mergeFiles\.postcondition"], model="real strcmp against the literal _none_",
+                 statement="econf_mergeFiles for entry arrays of any length: leading group-less override entries are copied "
+                           "first exactly when the base does not start group-less; the three workers get the right objects "
+                           "and the counts are handed over; result length = alloc_length = final count; tags from the base; "
+                           "no path; frame: only *merged_file is written (C10)."))
